@@ -299,7 +299,7 @@ func DiffBytes32(t *rapid.T, c *DiffCase, label string) {
 // own tests); ~30x cheaper than PointSpec.Ref for full-size A.  These are
 // inputs of a differential test: all configurations get the same bytes.
 func DiffRef(ps PointSpec) ref.Point { return ref.C03BasePlusTorsion(ref.FromLE(ps.A), ps.J%8) }
-func DiffEnc(ps PointSpec) []byte   { return DiffRef(ps).Encode() }
+func DiffEnc(ps PointSpec) []byte    { return DiffRef(ps).Encode() }
 
 // DiffPoint appends a 32-byte point string (mostly valid encodings built by
 // the reference: [a]B+T[j], identity, torsion; one time in five a decoder
